@@ -634,6 +634,29 @@ func runR016(c *core.Ctx) {
 		_, rd := mustDecl(c, "restli", pair.r)
 		r := map[types.Object]bool{}
 		fieldConstsUsed(rinf, dataPath, rd.Body, r)
+		// the writer may build its envelope through a named marshaler type instead of a closure: the methods of the
+		// package-local struct types it instantiates write on its behalf
+		for _, side := range []struct {
+			body ast.Node
+			into map[types.Object]bool
+		}{{wd.Body, w}, {rd.Body, r}} {
+			ast.Inspect(side.body, func(n ast.Node) bool {
+				cl, ok := n.(*ast.CompositeLit)
+				if !ok {
+					return true
+				}
+				nn := namedOf(rinf.Types[cl].Type)
+				if nn == nil || nn.Obj().Pkg() == nil || nn.Obj().Pkg() != c.M.Pkg("restli").Types {
+					return true
+				}
+				for i := 0; i < nn.NumMethods(); i++ {
+					if md := c.M.Decl(nn.Method(i).Origin()); md != nil && md.Body != nil {
+						fieldConstsUsed(rinf, dataPath, md.Body, side.into)
+					}
+				}
+				return true
+			})
+		}
 		same := len(w) == len(r) && len(w) > 0
 		for k := range w {
 			if !r[k] {
